@@ -44,6 +44,10 @@ BLOCKS = {
     # the same regime with the simulation's tolerance stated through the solver-level override ParameterErrorTolerance (the block line says 1e-2)
     'within-period-slow-override': ("x = 0.8*x + 0.2*(0.5*LAG_x + D)\nLAG_x = x(k-1)\nErr_Tolerance = 1e-2", {'x': {'x': 0.5, '@iter': (0.8, 1e-3)}, 'LAG_x': {'x': 1.0}}, ['x', 'LAG_x'],
                                     lambda sy, ds: [sy['LAG_x'] == sy['x'], sy['x'] >= 10, ds[0] * 2 >= sy['x'] * symx.rat(0.9), ds[0] * 2 <= sy['x'] * symx.rat(1.1)], {'ParameterErrorTolerance': 1e-3, 'ParameterInitialSteadyStateStepError': 1e-2}),
+    # the time step k (an exogenous input of every block: the solver supplies it) appears in an equation: the search runs over k = -T..0 and the accepted
+    # state belongs to k = 0; one more period with k frozen at 0 moves the stock by half the last search step
+    'time-trend':   ("x = 0.5*LAG_x + D + 10.0*k\nLAG_x = x(k-1)", {'x': {'x': 0.5, '@self': 0.5}, 'LAG_x': {'x': 1.0}}, ['x', 'LAG_x']),
+    'time-switch':  ("x = 0.5*LAG_x + D + g\ng = 10.*(k > -1.5)\nLAG_x = x(k-1)", {'x': {'x': 0.5, '@self': 0.5}, 'LAG_x': {'x': 1.0}, 'g': {'@self': 0.0}}, ['x', 'LAG_x']),
     'deco-balance': ("x = 0.5*LAG_x + D\nbal = 2*D - x\nsav = x - LAG_x\nLAG_x = x(k-1)",
                      {'x': {'x': 0.5, '@self': 0.5}, 'LAG_x': {'x': 1.0}, 'bal': {'x': 0.5, '@self': 0.5}, 'sav': {'x': 0.5, '@self': 0.5}}, ['x', 'LAG_x']),
 }
@@ -123,6 +127,7 @@ def case_run(case):
         x0 = {v: symx.lift(es.TimeSeries[v][0]) for v in es.TimeSeries if v not in ('k', 't')}
         # one more period with the exogenous inputs frozen at their k=0 values (as the property states)
         es.TimeSeries['D'] = [es.TimeSeries['D'][0]] * 4
+        es.TimeSeries['k'] = [es.TimeSeries['k'][0]] * len(es.TimeSeries['k'])       # the time step is an exogenous input too
         try:
             es.SolveStep(1)
         except ValueError:
@@ -217,6 +222,7 @@ if list(es.TimeSeries['D']) != path:
     print('the search changed the exogenous path:', es.TimeSeries['D'], 'was', path); bad = True
 x0 = {v: es.TimeSeries[v][0] for v in es.TimeSeries if v not in ('k', 't')}
 es.TimeSeries['D'] = [path[0]] * 4
+es.TimeSeries['k'] = [es.TimeSeries['k'][0]] * len(es.TimeSeries['k'])
 es.SolveStep(1)
 for v, a in x0.items():
     if v not in gain: continue
